@@ -188,11 +188,18 @@ func buildEvidence(eng *engine, id, tier string, seed int, units []*unit, jobs, 
 	byKind := map[string]int{}
 	var slow []map[string]interface{}
 	var samples []interface{}
+	nkf := 0
 	for _, j := range jobs {
 		byKind[j.o.kind]++
 		if j.o.res == "unsat" {
 			nd++
 			bySolver[j.o.solver]++
+		} else if j.o.knownBy != "" {
+			// matched a recorded known finding: the obligation was discharged in its
+			// restricted form (the finding's failing inputs excluded)
+			nd++
+			nkf++
+			bySolver["restricted to inputs outside a known finding"]++
 		}
 	}
 	sorted := append([]job(nil), jobs...)
@@ -280,6 +287,7 @@ func buildEvidence(eng *engine, id, tier string, seed int, units []*unit, jobs, 
 		kl = append(kl, known[k].Obligation+": "+known[k].What)
 	}
 	cv["known_findings_matched"] = kl
+	cv["obligations_discharged_only_outside_known_findings"] = nkf
 	cv["explanation"] = "every obligation is one contract clause (or automatic safety condition) on one control-flow path of the real function between cut points; all inputs and all loop iteration counts are covered by the quantifier-free/quantified SMT query (loops by inductive invariants, no unrolling unless stated)"
 	for n := range notes {
 		ev.Assumptions = append(ev.Assumptions, n)
